@@ -5,9 +5,6 @@ All statements are about `Model/Spectrum.lean` (tied to lentil.radiometry.Spectr
 namespace Lentil.C15
 open Lentil.Spec
 
-theorem wf_keepMask (m : List Bool) (s : Spectrum) (h : WF s) : WF ⟨keepMask m s.wave, keepMask m s.value⟩ :=
-  ⟨h.1.sublist (keepMask_sublist m s.wave), keepMask_length_eq m _ _ h.2⟩
-
 theorem wf_crop (lo hi : ℚ) (s : Spectrum) (h : WF s) : WF (crop lo hi s).1 := by
   simp only [crop]
   repeat' split
@@ -37,13 +34,6 @@ theorem wf_pad (e0 e1 : ℚ) (sm : Option ℚ) (edge : Bool) (vL vR : ℚ) (s : 
   all_goals first
     | exact h
     | (rename_i hv; exact ⟨validWave_strictInc _ hv, by simp [h.2]⟩)
-
-theorem sample_length (s : Spectrum) (fl fr : ℚ) (xs v : List ℚ) (h : sample s fl fr xs = .ok v) :
-    v.length = xs.length := by
-  simp only [sample] at h
-  split at h
-  · cases h
-  · cases h; simp
 
 theorem wf_resample (xs : List ℚ) (fl fr : ℚ) (s : Spectrum) (h : WF s) : WF (resample xs fl fr s).1 := by
   simp only [resample]
@@ -203,30 +193,6 @@ theorem trapz_exact_linear_segment (a b : ℚ) : ∀ (xs : List ℚ) (x0 : ℚ),
 
 /-! ### binning -/
 
-theorem midpoints_length : ∀ c : List ℚ, (midpoints c).length = c.length - 1 := by
-  intro c
-  induction c with
-  | nil => simp [midpoints]
-  | cons c0 c ih => cases c with
-    | nil => simp [midpoints]
-    | cons c1 cs => simp only [midpoints, List.length_cons] at ih ⊢; omega
-
-theorem trapzBins_length : ∀ x f : List ℚ, x.length = f.length → (trapzBins x f).length = x.length - 1 := by
-  intro x
-  induction x with
-  | nil => intro f _; simp [trapzBins]
-  | cons x0 x ih =>
-    intro f h
-    cases x with
-    | nil => simp [trapzBins]
-    | cons x1 xs => cases f with
-      | nil => simp at h
-      | cons f0 f => cases f with
-        | nil => simp at h
-        | cons f1 fs =>
-          have := ih (f1 :: fs) (by simpa using h)
-          simp only [trapzBins, List.length_cons] at this ⊢; omega
-
 /-- trapezoid binning returns one value per requested centre (both end treatments, with or without power preservation) -/
 theorem bin_length_trapz (s : Spectrum) (sym : Bool) (fl fr : ℚ) (norm : Option ℚ) (c bins : List ℚ)
     (h : bin s false sym fl fr norm c = .ok bins) : bins.length = c.length := by
@@ -254,35 +220,11 @@ theorem bin_length_trapz (s : Spectrum) (sym : Bool) (fl fr : ℚ) (norm : Optio
       have hb := trapzBins_length _ _ (hl.trans rfl).symm
       split at h <;> cases h <;> simp [hb, he]
 
-theorem trapzBins_nonneg : ∀ x f : List ℚ, StrictInc x → (∀ v ∈ f, 0 ≤ v) → ∀ b ∈ trapzBins x f, 0 ≤ b := by
-  intro x
-  induction x with
-  | nil => intro f _ _ b hb; simp [trapzBins] at hb
-  | cons x0 x ih =>
-    intro f hx hf b hb
-    cases x with
-    | nil => simp [trapzBins] at hb
-    | cons x1 xs => cases f with
-      | nil => simp [trapzBins] at hb
-      | cons f0 f => cases f with
-        | nil => simp [trapzBins] at hb
-        | cons f1 fs =>
-          simp only [trapzBins, List.mem_cons] at hb
-          rcases hb with rfl | hb
-          · have h01 : x0 < x1 := (List.pairwise_cons.mp hx).1 x1 (by simp)
-            have := hf f0 (by simp); have := hf f1 (by simp)
-            have : 0 ≤ x1 - x0 := by linarith
-            positivity
-          · exact ih (f1 :: fs) (List.pairwise_cons.mp hx).2 (fun v hv => hf v (by simp [hv])) b hb
-
 /-- Tᵖ: trapezoid bins of non-negative samples over increasing edges are non-negative. Gap (checked by the oracle
 only): that the linear interpolant of a non-negative spectrum with non-negative fill is non-negative at every edge and
 that the edges of increasing centres are increasing. -/
 theorem bin_trapz_nonneg_partial (x f : List ℚ) (hx : StrictInc x) (hf : ∀ v ∈ f, 0 ≤ v) :
     ∀ b ∈ trapzBins x f, 0 ≤ b := trapzBins_nonneg x f hx hf
-
-theorem sumL_eq_sum (l : List ℚ) : sumL l = l.sum := by
-  simp [sumL, List.sum_eq_foldl]
 
 /-- with power preservation the bins sum to the spectrum's integral over the span of the centres -/
 theorem bin_preserve_power_sum (bins : List ℚ) (I : ℚ) (h : sumL bins ≠ 0) :
@@ -295,31 +237,6 @@ theorem bin_preserve_power_sum (bins : List ℚ) (I : ℚ) (h : sumL bins ≠ 0)
   field_simp
 
 /-! ### crop keeps exactly the closed range -/
-
-theorem head_le_of_strictInc : ∀ (l : List ℚ) (a : ℚ), StrictInc l → l.head? = some a → ∀ x ∈ l, a ≤ x := by
-  intro l a hl ha x hx
-  cases l with
-  | nil => simp at ha
-  | cons y ys =>
-    simp at ha; subst ha
-    rcases List.mem_cons.mp hx with rfl | hx
-    · exact le_refl _
-    · exact le_of_lt ((List.pairwise_cons.mp hl).1 x hx)
-
-theorem le_getLast_of_strictInc : ∀ (l : List ℚ) (b : ℚ), StrictInc l → l.getLast? = some b → ∀ x ∈ l, x ≤ b := by
-  intro l
-  induction l with
-  | nil => intro b _ hb; simp at hb
-  | cons y ys ih =>
-    intro b hl hb x hx
-    cases ys with
-    | nil => simp at hb; subst hb; simp at hx; subst hx; exact le_refl _
-    | cons z zs =>
-      rw [List.getLast?_cons_cons] at hb
-      rcases List.mem_cons.mp hx with rfl | hx
-      · have h1 : x < z := (List.pairwise_cons.mp hl).1 z (by simp)
-        exact le_trans (le_of_lt h1) (ih b (List.pairwise_cons.mp hl).2 hb z (by simp))
-      · exact ih b (List.pairwise_cons.mp hl).2 hb x hx
 
 /-- crop keeps exactly the samples inside the closed requested range (whether or not it then raises on an emptied grid) -/
 theorem crop_keeps_exactly_closed_range (lo hi : ℚ) (s : Spectrum) (h : WF s) :
@@ -364,6 +281,35 @@ theorem crop_keeps_exactly_closed_range (lo hi : ℚ) (s : Spectrum) (h : WF s) 
         · rintro ⟨h1, h2⟩
           exact ⟨h1, h2, le_trans (le_getLast_of_strictInc _ _ wf1.1 hwl x ((st1 x).mpr ⟨h1, h2⟩)) (not_lt.mp hhi)⟩
         · rintro ⟨h1, h2, _⟩; exact ⟨h1, h2⟩
+
+/-- trim keeps exactly the samples from the first to the last one whose value, relative to the maximum, exceeds the
+tolerance; when no sample does, the call raises IndexError and the spectrum is left as it was -/
+theorem trim_first_to_last_above_tol (tol : ℚ) (s : Spectrum) (m : ℚ)
+    (hz : s.value.all (· == 0) = false) (hm : maxL s.value = some m) (hpos : 0 < m) :
+    (∃ a b, trim tol s = (⟨slice a b s.wave, slice a b s.value⟩, none) ∧
+       (∃ v, s.value[a]? = some v ∧ v / m > tol) ∧ (∀ j, j < a → ∀ v, s.value[j]? = some v → ¬ v / m > tol) ∧
+       (∃ v, s.value[b]? = some v ∧ v / m > tol) ∧ (∀ j, b < j → ∀ v, s.value[j]? = some v → ¬ v / m > tol))
+    ∨ (trim tol s = (s, some .indexError) ∧ ∀ v ∈ s.value, ¬ v / m > tol) := by
+  have hnp : ¬ m ≤ 0 := not_le.mpr hpos
+  simp only [trim, hz, hm, hnp, Bool.false_eq_true, if_false]
+  cases hf : firstIdx (fun v : ℚ => decide (v / m > tol)) s.value with
+  | none =>
+    right
+    refine ⟨rfl, fun v hv => ?_⟩
+    simpa using firstIdx_none _ _ hf v hv
+  | some a =>
+    cases hl : lastIdx (fun v : ℚ => decide (v / m > tol)) s.value with
+    | none =>
+      right
+      refine ⟨rfl, fun v hv => ?_⟩
+      simpa using lastIdx_none _ _ hl v hv
+    | some b =>
+      left
+      obtain ⟨⟨va, hva, hpa⟩, hlta⟩ := firstIdx_spec _ _ _ hf
+      obtain ⟨⟨vb, hvb, hpb⟩, hltb⟩ := lastIdx_spec _ _ _ hl
+      refine ⟨a, b, rfl, ⟨va, hva, by simpa using hpa⟩, ?_, ⟨vb, hvb, by simpa using hpb⟩, ?_⟩
+      · intro j hj v hv; simpa using hlta j hj v hv
+      · intro j hj v hv; simpa using hltb j hj v hv
 
 /-- non-vacuity: a history with an accepted crop, a refused append and an accepted pad -/
 example : run ⟨[1, 2, 4, 8], [5, 6, 7, 8]⟩ [.crop 2 5, .append ⟨[3, 9], [1, 1]⟩, .pad 1 6 none false 0 0]
